@@ -11,7 +11,8 @@ Two parts:
   margin rule ``|x0 - thr| <= m`` (``in_margin``).  The sklearn stub in
   checks/c19.py is a thin wrapper around these three functions, computing in
   ``Fraction`` as well, so the environment is the same on both sides and has no
-  rounding of its own;
+  rounding of its own.  Some families use a second stub whose ``fit`` learns
+  nothing (fixed threshold): ``MD3Model(..., refit=False)``;
 * the *specification*: k-fold reference statistics, margin-density recurrence,
   warning rule, refusal rules, confirmation after exactly L labels, reference
   replacement, lifecycle counters.
@@ -85,18 +86,22 @@ def _mean_std(vals):
     return mean, std
 
 
-def fold_statistics(rows, k, m):
+def fold_statistics(rows, k, m, fixed_thr=None):
     """Mean and standard deviation, over k cross-validation folds, of the margin
     density and of the accuracy of the classifier trained on the other folds.
 
     rows: list of (x0, label).  Returns None when the statistic is undefined
-    (fewer rows than folds)."""
+    (fewer rows than folds).  ``fixed_thr``: the environment's classifier ignores
+    its training rows (``fit`` is a no-op) and always uses this threshold."""
     n = len(rows)
     if k < 2 or n < k:
         return None
     mds, accs = [], []
     for train, test in KFold(n_splits=k, shuffle=True, random_state=42).split(np.zeros((n, 1))):
-        thr = learn_threshold([rows[i][0] for i in train], [rows[i][1] for i in train])
+        if fixed_thr is None:
+            thr = learn_threshold([rows[i][0] for i in train], [rows[i][1] for i in train])
+        else:
+            thr = Fraction(fixed_thr)
         inside = sum(in_margin(rows[i][0], thr, m) for i in test)
         right = sum(1 for i in test if predict_one(rows[i][0], thr) == rows[i][1])
         mds.append(Fraction(inside, len(test)))
@@ -116,8 +121,10 @@ class MD3Model:
     label(nrows, columns, x0, y, D)      -> expected observation
     """
 
-    def __init__(self, ref_rows, columns, sensitivity, k, L, clf_thr, clf_margin):
+    def __init__(self, ref_rows, columns, sensitivity, k, L, clf_thr, clf_margin, refit=True):
         self.columns = list(columns)  # feature columns + target column of the reference
+        # refit=False: the environment's classifier is a fixed rule whose fit() learns nothing
+        self.refit = bool(refit)
         self.sens = Fraction(sensitivity)
         self.k = k
         self.thr = Fraction(clf_thr)  # the user's fitted classifier (never refitted by MD3)
@@ -138,7 +145,7 @@ class MD3Model:
 
     # -- reference -----------------------------------------------------------
     def _adopt(self, rows):
-        st = fold_statistics(rows, self.k, self.m)
+        st = fold_statistics(rows, self.k, self.m, None if self.refit else self.thr)
         if st is None:
             return False
         self.stats = st
